@@ -3,6 +3,34 @@
 import json, sys
 
 CLAIMED = {
+ "C06": dict(level="exploration", technique="property-based testing (rapid) with a MAC-recomputing reference (differential, both directions), end-to-end token mutation, JWT manipulation against stateful and stateless introspection, minting statistics; native fuzzing of HMAC validation in the thorough tier",
+   text="Generated secret configurations, minting-secret relations and named single edits of tokens are decided by a reference that recomputes the MAC over the decoded parts; every credential kind is also mutated end to end and JWT access tokens are manipulated (none, HS256 with the public key, re-signing, part swaps). Minting is sampled (thousands per kind) for distinctness, length and bit balance.",
+   note="Trusted: crypto/hmac, encoding/base64, go-jose. Non-canonical base64 that decodes to identical bytes and the JSON serialisation of an unmodified JWS are not forgeries (unspecified). Entropy is checked as length + distinctness + bit balance, not with a statistical suite.", ref="DESIGN.md 4 C06"),
+ "C10": dict(level="exploration", technique="property-based testing (rapid) over registration x transport x secret relation x endpoint with an independently computed necessary condition and a storage recorder",
+   text="Requests that are valid except for client authentication are generated for every endpoint; acceptance without proof (valid secret through a permitted transport, or valid assertion) is a violation, refused requests must be invalid_client / invalid_request and must not touch code/token records, canonical valid credentials must pass. Real bcrypt.",
+   note="Trusted: the harness' reading of 'permitted transport' per token_endpoint_auth_method (DESIGN.md 4 C10). Mixed presentations (right secret in one transport, wrong in another) are only constrained by the necessary condition.", ref="DESIGN.md 4 C10"),
+ "C11": dict(level="exploration", technique="property-based testing (rapid) with a component grammar for registered URIs and named near-miss edits, oracle on the written response bytes; native fuzzing of the requested redirect_uri in the thorough tier",
+   text="Any Location / form action written by the authorization endpoint (success, redirected error, after PAR) is checked against the registered set (string identity or the loopback rule via net/netip); requests whose redirect_uri does not qualify per an independent reference must not be redirected.",
+   note="Registered URIs are generated in canonical form (operator input); requested URIs are arbitrary. Percent-encoded path variants, scheme/host letter case on loopback and exotic strings are unspecified for the 'qualifies' direction (the output rule is always asserted). form_post with a non-http(s) scheme renders html/template's inert #ZgotmplZ.", ref="DESIGN.md 4 C11"),
+ "C13": dict(level="exploration", technique="property-based testing (rapid) over registration x request with an independently computed list of unmet conditions",
+   text="Acceptance by the authorization endpoint implies every condition of the statement (computed independently); request-object parameters are honoured only if verifiable; tokens never appear in a Location query; state is echoed byte-identical.",
+   note="Duplicate / case-variant response_type members are unspecified. 'code id_token' for a client without the implicit grant is logged, not asserted.", ref="DESIGN.md 4 C13"),
+ "C14": dict(level="exploration", technique="property-based testing (rapid): every ID token in every response is verified with the public key and compared with independently computed bindings",
+   text="All OpenID Connect flows x key types x session and request shapes; signature, alg, aud, sub, iss, nonce, exp window, at_hash / c_hash (left-half hash by alg) and the stated blockers of issuance.",
+   note="Conditional oracle: a refusal is always acceptable. c_hash compared only when a code is delivered in the same response. Key/header combinations limited to the documented ones.", ref="DESIGN.md 4 C14"),
+ "C15": dict(level="exploration", technique="property-based testing (rapid) over claim/header/key defects and short histories, plus exhaustive enumeration of storage-step interleavings of simultaneous presentations (harness-owned scheduler)",
+   text="Assertions with 0-2 named defects must be refused whenever the statement gives a reason; defect-free ones accepted; replays refused; 2 simultaneous presentations are run under every interleaving of their storage steps (3: bounded DFS): exactly one succeeds.",
+   note="Atomicity inside a single storage call is covered by C19's hammer, not here. Reuse of a jti after the first assertion expired is unspecified.", ref="DESIGN.md 4 C15"),
+ "C18": dict(level="fault_enumeration", technique="exhaustive single-fault enumeration over recorded storage-call lists (every index x failure kind x store x flow) with crash injection and a transactional store with real rollback; sampled fault pairs (rapid)",
+   text="Every storage call of 13 flows is failed in 5 ways on both stores; refused responses carry nothing, transaction grammar, table snapshots equal after in-transaction failures, legitimate retry succeeds, attack step stays refused, single-use credentials exchanged at most once.",
+   note="not-found / inactive answers on read calls are legitimate store answers, not failures (no refusal demanded). Trusted: harness TxStore and fault wrapper.", ref="DESIGN.md 4 C18"),
+ "C19": dict(level="exploration", technique="porcupine linearizability checking of generated concurrent store histories; exhaustive storage-step interleavings of API operation pairs (harness-owned scheduler); free-running stress and an atomicity hammer under the Go race detector",
+   text="Three engines: store linearizability against a sequential specification, all interleavings of two operations at storage-call granularity, and 8-goroutine stress under -race with populated and default-constructed configurations.",
+   note="A silent race detector is evidence, not proof; schedules finer than a storage call are only sampled.", ref="DESIGN.md 4 C19"),
+ "C20": dict(level="exploration", technique="property-based testing (rapid) of every error writer with hostile text and canaries (round-trip through JSON / URL / HTML5 parsers), header checks on success responses, storage recorder scan for recognisable secrets over generated flow sequences",
+   text="Error responses are parsed back and compared; debug canary only with exposure on; cache headers everywhere; no storage key or stored form value equals or contains a submitted secret or a complete code/token.",
+   note="One listed known finding (OIDC session keyed by the complete authorization code) is excluded by fingerprint while its probe reproduces.", ref="DESIGN.md 4 C20, 5"),
+
  "C01": dict(level="exploration", technique="stateful property-based testing (rapid state machine) against a reference model; per-step introspection invariant",
    text="Model-based generated histories (authorize/redeem/refresh/revoke/advance over 3 clients, 2 stores, HMAC/JWT, 3 refresh-scope configurations) with a three-valued reference model; every step is followed by introspection of every token ever received. Held on everything explored; not a proof.",
    note="Trusted: the reference model (transcription of the statement, DESIGN.md app. C), the harness integrator, rapid. The hybrid authorization-endpoint access token is unspecified after a replay.", ref="DESIGN.md 3, 4 C01"),
